@@ -158,7 +158,8 @@ GroupStep(g, st0, present, outc) ==
   LET stA == MaskStateLists(g, MergeAndBlock(g, st0, present))
       gl  == GradList(g, present)
       n   == Len(gl)
-      lists(st) == [dMP |-> st.dMP, mP |-> st.mP, mK |-> st.mK, mG |-> st.mG, mF |-> st.mF, mM |-> st.mM]
+      lists(st) == [dMP |-> st.dMP, mP |-> st.mP, mK |-> st.mK, mG |-> st.mG, mF |-> st.mF, mM |-> st.mM,
+                    lCnt |-> st.lCnt, mCnt |-> st.mCnt]
       mkobs(st, stepped, refresh, usegraft, calls, raised) ==
         [stepped |-> stepped, step |-> st.step, refresh |-> refresh, usegraft |-> usegraft, active |-> gl,
          calls |-> calls, raised |-> raised, lists |-> lists(st),
